@@ -113,7 +113,7 @@ def gen_tasks(tier, seed):
     rng = random.Random(seed * 7919 + 2)
     tasks = corpus_tasks()
     gid = 0
-    reps = 1 if tier == "quick" else 4
+    reps = 1 if tier == "quick" else 10
     for _ in range(reps):
         # every graft type in both modes and with both root kinds
         for k, graft in enumerate(GRAFTS):
